@@ -1,0 +1,69 @@
+//go:build verif
+
+package datalog
+
+import (
+	"sync"
+	"sync/atomic"
+	"time"
+)
+
+// Runtime-monitoring hooks (build tag "verif"): per-name event counters and
+// optional delays at points where the goroutine can already be descheduled.
+// No verdict of the library depends on them.
+
+var (
+	verifMu       sync.RWMutex
+	verifCounters = map[string]*int64{}
+	verifDelays   = map[string]time.Duration{}
+)
+
+func verifPoint(name string) {
+	verifMu.RLock()
+	c := verifCounters[name]
+	d := verifDelays[name]
+	verifMu.RUnlock()
+	if c == nil {
+		verifMu.Lock()
+		c = verifCounters[name]
+		if c == nil {
+			c = new(int64)
+			verifCounters[name] = c
+		}
+		verifMu.Unlock()
+	}
+	atomic.AddInt64(c, 1)
+	if d > 0 {
+		time.Sleep(d)
+	}
+}
+
+// VerifSetDelay makes every later verifPoint(name) sleep for d (0 removes the delay).
+func VerifSetDelay(name string, d time.Duration) {
+	verifMu.Lock()
+	defer verifMu.Unlock()
+	if d <= 0 {
+		delete(verifDelays, name)
+		return
+	}
+	verifDelays[name] = d
+}
+
+// VerifCounters returns a copy of the event counters.
+func VerifCounters() map[string]int64 {
+	verifMu.RLock()
+	defer verifMu.RUnlock()
+	out := make(map[string]int64, len(verifCounters))
+	for k, v := range verifCounters {
+		out[k] = atomic.LoadInt64(v)
+	}
+	return out
+}
+
+// VerifReset clears counters and delays.
+func VerifReset() {
+	verifMu.Lock()
+	defer verifMu.Unlock()
+	verifCounters = map[string]*int64{}
+	verifDelays = map[string]time.Duration{}
+}
